@@ -178,7 +178,9 @@ def oracle_lines(ctx, cases, lines):
     returns [(case, output, why)] or [(case, output, why, key)]"""
     bad = []
     for i, c in enumerate(cases):
-        out = lines[i] if i < len(lines) else '<missing: harness died>'
+        if i >= len(lines):
+            break              # not evaluated (harness stopped early: reported by the caller)
+        out = lines[i]
         w = c.split()
         if w[0] == 'hist':
             if not out.startswith('ok '):
@@ -230,7 +232,7 @@ def oracle_lines(ctx, cases, lines):
 def run_harness(ctx, harness, cases, name):
     path = os.path.join(ctx.build, name + '.cases')
     open(path, 'w').write('\n'.join(cases) + '\n')
-    rc, lines, err = ctx.run_lines([harness], path)
+    rc, lines, err = ctx.run_lines([harness], path, timeout=420)
     return rc, lines, err
 
 
@@ -314,8 +316,8 @@ def run(ctx):
     rc, lines, err = run_harness(ctx, harness, cases, 'oracle')
     ctx.evaluations += len(cases)
     bad = oracle_lines(ctx, cases, lines)
-    if rc != 0 and not bad:
-        bad = [('(harness)', err[-300:], 'harness crashed')]
+    if (rc != 0 or len(lines) < len(cases)) and not bad:
+        bad = [(cases[len(lines)] if len(lines) < len(cases) else '(harness)', err[-300:], 'harness crashed or timed out (first case without an answer is recorded)')]
     ctx.stage('oracle', not bad, bad[0][2] if bad else '')
     real_bad = []
     for b in bad:
